@@ -9,13 +9,13 @@ VERIF = os.path.dirname(os.path.dirname(os.path.abspath(__file__)))
 P = {
  "C01": ("exploration", "bounded exhaustive enumeration: all 2^30 interpolation offsets; unit-impulse column sums of every real map over a displacement alphabet",
          "Charge conservation for all data is equivalent to unit column sums of the step's matrix; the matrix of every real map class is obtained from unit impulses for every enumerated (size, order, bunch count, per-row displacement) and the interpolation weights are enumerated completely (all 1 065 353 216 floats in [0,1) x 4 orders).",
-         "Linearity of the maps (cross-checked on dense signed/non-negative data); displacements within the table's range; OpenCL paths compiled out.", "6/C01", "A"),
+         "Linearity of the maps (cross-checked: negated and power-of-two-scaled data give the negated / scaled image bit for bit); displacements within the range [-n/2, n/2) the offset table encodes; OpenCL paths compiled out.", "6/C01", "A"),
  "C02": ("exploration", "complete enumeration of the 2^30 fractional offsets; every whole-cell shift that fits; monomial basis on a dyadic offset lattice",
          "Weight-level claims are decided completely; whole-cell shifts are compared bit for bit for every shift that fits the enumerated grids; polynomial reproduction on the monomial basis (a basis of the polynomials of degree < n).",
-         "Grid sizes up to 16; offsets of the polynomial part from a dyadic lattice plus the worst cases found by the weight enumeration.", "6/C02", "A"),
+         "Grid sizes up to 33; offsets of the polynomial part from a dyadic lattice of 256 fractions plus the worst cases found by the weight enumeration; whole-shift data includes negative, 1e-30, 1e30 and subnormal values.", "6/C02", "A"),
  "C03": ("exploration", "bounded exhaustive enumeration of configurations x every step of a period, invariant checked at every state of every trajectory",
          "Centroid trajectories of the real RF-kick/drift pair (API) and of the real binary for a lattice of step counts, grid sizes, shifts, orders and starts; the exact rotation within the first-order splitting bound is checked after every step.",
-         "Sense of rotation pinned to the code's convention; charge kept away from the border by construction.", "6/C03", "A+B"),
+         "Sense of rotation pinned to the code's convention; charge kept away from the border by construction; sinusoidal model: small amplitudes and short blobs, RF voltage down to 3.3 times the radiation loss per turn.", "6/C03", "A+B"),
  "C04": ("exploration", "bounded exhaustive enumeration of configurations, invariants (monotonicity, limit) checked at every recorded step",
          "Trajectories of the real Fokker-Planck + rotation maps over a configuration lattice with horizon 8 damping times; limit, flatness and monotonicity invariants.",
          "Equilibrium statements are checked on finite horizons only.", "6/C04", "A+B"),
@@ -32,7 +32,7 @@ P = {
          "Every map class is applied to nb<=3 bunches with per-bunch data and fields; every slice must equal, bit for bit, the single-bunch run on the same data and field (the arithmetic is identical).",
          "nb <= 3, n <= 12.", "6/C08", "A+B"),
  "C09": ("exploration", "bounded exhaustive enumeration of fillings x impulse/pair/Gaussian data against double-precision reference moments",
-         "Normalisation and moments of the real PhaseSpace for every filling composition (incl. empty buckets), every impulse and impulse pair, and a Gaussian lattice.",
+         "Normalisation and moments of the real PhaseSpace for every filling composition (incl. empty buckets), every impulse and impulse pair, and a Gaussian lattice in four magnitudes; plus an explicit search over all call histories up to depth 5 (6) of {write, both projections, integrate, normalize, shorthand, both variances, copy, assign, swap} against a freshness model of the caches.",
          "Equal extent of both axes (the only grids main() can build).", "6/C09", "A"),
  "C10": ("model_checking", "TLC explicit-state model of main()'s output protocol, every terminal behaviour replayed on the real binary; record contents recomputed from the file",
          "Record structure: all behaviours of the TLA+ model of the main loop for a configuration lattice, each replayed on the hooked binary with label-trace equality. Record contents: recomputation from the stored datasets at every record.",
@@ -43,9 +43,9 @@ P = {
  "C12": ("exploration", "bounded exhaustive enumeration of observation settings, bitwise comparison of all common records",
          "All combinations of output cadence, save cadence, tracking, verbosity and file name for a base run; final phase space and all common records must be bitwise identical.",
          "Deterministic RF; same FFT wisdom.", "6/C12", "B"),
- "C13": ("exploration", "bounded exhaustive enumeration of option assignments x sources (deviation bound 2), parse-save-parse round trip on the real ProgramOptions",
-         "Every option singly and every pair, on every source, is parsed, saved and re-parsed by the real class; every getter must agree.",
-         "Two values per option.", "6/C13", "A"),
+ "C13": ("exploration", "bounded exhaustive enumeration of option assignments x sources (deviation bound 2, thorough 3), parse-save-parse round trip on the real ProgramOptions; rerun of the real binary from its saved .cfg",
+         "Every option singly and every pair (thorough: every triple), on every source, is parsed, saved and re-parsed by the real class; every getter must agree. Process level: the real binary is rerun from the .cfg it saved (and once more from its own .cfg under the same output name with an override); all datasets and attributes must agree bitwise.",
+         "Two values per option.", "6/C13", "A+B"),
  "C14": ("model_checking", "deviation-bounded scheduler over hooked interrupt points + TLC model of main(); every model behaviour replayed on the real binary",
          "One signal at every hook hit of every configuration (and pairs for a reduced set): model invariants by TLC, every terminal behaviour replayed on the hooked binary, label traces must be model paths.",
          "Signal delivery inside a library call is equivalent to delivery after it (the handler only sets a flag read at two places, grep-checked).", "6/C14", "C"),
@@ -53,10 +53,10 @@ P = {
          "applyTo vs apply centroid for every lattice position and offset pair; all four FP tracking models over many steps stay inside the grid; ensemble moments for the stochastic model.",
          "Fixed PRNG seeds 0..15.", "6/C15", "A"),
  "C16": ("exploration", "bounded exhaustive enumeration of sample counts x parameter lattices x factory switches",
-         "Shape, passivity, scaling laws, factory additivity and causality (through the real wake computation) over the parameter lattice.",
+         "Shape, passivity, absolute scale against the documented closed forms, factory additivity and causality (through the real wake computation) over the parameter lattice, sample counts from 0; every ordered pair of argument sets per model class built back to back against fresh-process references (construction histories).",
          "Parameter lattices of 3 points per axis.", "6/C16", "A"),
  "C17": ("fault_enumeration", "deviation-bounded enumeration (1 then 2 parameter changes) of configurations and token-grammar input files under ASan/UBSan",
-         "Every 1- and 2-parameter deviation from a valid run and every input file of <= 3 lines over the token grammar is run on the sanitizer build.",
+         "Every 1- and 2-parameter deviation from a valid run and every input file of <= 3 lines over the token grammar is run on the sanitizer build; the base run, every single deviation and every kind of input file (<= 2 lines) also under valgrind.",
          "Sanitizers as oracle; uninitialised reads only via the valgrind subset.", "6/C17", "B"),
  "C18": ("model_checking", "explicit-state BFS over operation histories of the real ElectricField with canonical state hashing",
          "Breadth-first search over {set profile, wake, pad, CSR} histories on the real object until no new canonical state appears; invariant: outputs equal those of a fresh object, bit for bit.",
@@ -66,7 +66,7 @@ P = {
          "Queue length 6..8.", "6/C19", "A"),
  "C20": ("exploration", "bounded exhaustive enumeration of option placements against a three-level reference lookup",
          "Every option x {absent, cli, cfg, both}, alias pairs x 16 placements, malformed/unknown tokens, on the real parser and the real binary's exit status.",
-         "Two values per option; token alphabet of 5 malformed values.", "6/C20", "A+B"),
+         "Two values per option; type-specific alphabet of 15 malformed tokens on the command line, in the file, and in the file under a proper command-line value.", "6/C20", "A+B"),
 }
 
 
@@ -102,7 +102,7 @@ def main():
                       dict(name="C", path="models/", serves_properties=[p for p in sorted(P) if "C" in P[p][5]],
                            kind_free_text="TLA+ model of main() checked by TLC; every terminal behaviour replayed on the hooked binary (two-way trace conformance)")],
              checks=checks, not_applicable=na,
-             notes="All checks rebuild from /repo's working tree (set VERIF_REPO to point them at another tree). known_findings.txt lists genuine defects that are recorded rather than repaired.")
+             notes="Both tiers are exhaustive over their stated bounds; the quick tier already runs the wide lattices (about 7 minutes for all 20 checks on 16 cores), the thorough tier adds the combinatorially larger parts. Harness cases run many to a process (dealt round robin and in blocks), a violation that needs the history of its process is replayed with its whole shard. All checks rebuild from /repo's working tree (set VERIF_REPO to point them at another tree). known_findings.txt lists genuine defects that are recorded rather than repaired.")
     with open(os.path.join(VERIF, "MANIFEST.json"), "w") as f:
         json.dump(m, f, indent=1)
     print("claimed:", [c["property_id"] for c in checks])
